@@ -161,6 +161,7 @@ func (s *App) Close() {
 		for _, m := range s.CloserComponents {
 			go func(m definition.CloserComponent) {
 				defer wg.Done()
+				verifCloseYield(m)
 				if err := m.Close(); err != nil {
 					err = errors.Wrapf(err, "invoking Close() for closer '%T'", m)
 					s.logger().Errorf("%+v", err)
